@@ -19,6 +19,7 @@ from kawin.precipitation.PopulationBalance import PopulationBalanceModel as PBM
 from kawin.precipitation.PrecipitationParameters import PrecipitationData, Constraints
 from harness import c07 as _c07
 from harness import c01 as _c01
+from harness import c08 as _c08
 
 
 class MultiStub:
@@ -285,6 +286,11 @@ HARNESSES = [
     Harness("C03.transport_any_radius", _c07.nuc_class, functions=[PBM.getdXdtEuler, PBM.correctdXdtEuler],
             assumptions=["as C07.nuc_class: the nucleation radius is unconstrained (inside, below or above the grid); no internal error on any path"],
             params={"quick": [{"n": 2}], "thorough": [{"n": 3}]}),
+    Harness("C03.remesh_nonneg", _c08.op_adjust, functions=[PBM.adjustSizeClassesEuler, PBM.changeSizeClasses, PBM.addSizeClasses],
+            assumptions=["as C08.op_adjust: the automatic grid adjustment a run performs every step leaves populations defined and non-negative, also for an empty distribution"],
+            opts={"ob_timeout": 30.0}, budget={"quick": 150.0, "thorough": 900.0},
+            params={"quick": [{"n": 2, "orig": 4, "minb": 2, "maxb": 2, "adaptive": True, "diss": False}],
+                    "thorough": [{"n": 3, "orig": 4, "minb": 2, "maxb": 3, "adaptive": True, "diss": True}]}),
     Harness("C03.composition_clamp", _c01.mass_balance, functions=[PrecipitateModel._calcMassBalance],
             assumptions=["as C01.mass_balance: the recorded matrix composition is the balanced one, or the minimum composition when the balance is negative"],
             params={"quick": [{"nph": 1, "nel": 2, "ncls": 2, "infinite": True}], "thorough": [{"nph": 2, "nel": 2, "ncls": 2, "infinite": True}]}),
